@@ -4,7 +4,7 @@
 From Coq Require Import Extraction ExtrOcamlBasic.
 From V.Lib Require Import Bytes Base64.
 From V.Lib Require Import NetAddr.
-From V.Model Require Import Signed Cookies CookieStore Jar Csrf Ticket Bypass Authz Headers Redirect SignOut Refresh StoreFaults Oidc Pkce.
+From V.Model Require Import Signed Cookies CookieStore Jar Csrf Ticket Bypass Authz Headers Redirect SignOut Refresh StoreFaults Oidc Pkce Upstream.
 Extraction Blacklist String List Nat Bytes Int Char Array Buffer Hashtbl Printf Sx Conv Adapters Driver.
 Set Extraction Optimize.
 Separate Extraction
@@ -26,4 +26,5 @@ Separate Extraction
   Refresh.run Refresh.init Refresh.step Refresh.seq_refresh Refresh.expire_lock
   StoreFaults.stored_request StoreFaults.callback_save StoreFaults.sign_out StoreFaults.ready_probe
   Oidc.redeem Oidc.refresh_identity Oidc.session_from_bearer Oidc.check_nonce Oidc.validate_session Oidc.verify_token Oidc.lib_parse_ok
-  Pkce.code_verifier Pkce.code_challenge Pkce.oauth_start_pkce.
+  Pkce.code_verifier Pkce.code_challenge Pkce.oauth_start_pkce
+  Upstream.route Upstream.first_match Upstream.less.
